@@ -947,6 +947,17 @@ func c13ClientX(e *Env, forC14 bool, forced *c13Forced) {
 			e.Fault("slow-dwr-writes")
 		}
 	}
+	// eager peer: its DWA is back before the client's write call of the DWR has returned (a
+	// transport whose Write returns late, or a writer that is descheduled right after it)
+	eager := forced == nil && !forC14 && !slow && failCycle < 0 && t.Chance(1, 6)
+	if eager {
+		peerDWRLeft = 0
+		for i := range plans {
+			plans[i] = dwPlan{kind: "ack-in-write"}
+		}
+		w.sc.ArmWriteFault(&WriteFault{Kind: "stall", After: 1 << 20})
+		e.Fault("dwa-before-write-returns")
+	}
 	stalledSince := time.Duration(-1)
 	appStalled := forced != nil // (the sweep does not stall application writes)
 	type pend struct {
@@ -968,6 +979,24 @@ func c13ClientX(e *Env, forC14 bool, forced *c13Forced) {
 				continue
 			}
 			w.advance(stallFor - (w.now() - stalledSince))
+			continue
+		}
+		if eager && w.sc.Stalled() {
+			// the whole DWR is with the peer, the client's Write has not returned yet
+			full := w.sc.Written()
+			start := 0
+			for _, r := range w.sc.WriteRecs() {
+				start = r.Start + r.N
+			}
+			if rm, err := refParse(full[start:]); err == nil && rm.Cmd == cmdDW && rm.Flags&0x80 != 0 {
+				w.schedule(0, serverDWA(rm, 2001).Bytes(), "dwa:2001")
+				w.flush()
+				e.Quiesce()
+				e.Probe("dwa-handled-before-dwr-write-returned")
+			}
+			w.sc.Resume()
+			w.sc.ArmWriteFault(&WriteFault{Kind: "stall", After: 1 << 20})
+			e.Quiesce()
 			continue
 		}
 		if failCycle >= 0 && !failArmed && len(cycleOf) == failCycle {
